@@ -221,6 +221,18 @@ def _renest_one(tree: ast.Module, rel: str, qual: str, ref_params: List[str], kn
                 for i, item in enumerate(value):
                     if isinstance(item, ast.AST) and _is_ref(item, helper.name, method):
                         value[i] = ast.copy_location(ast.Name(id=inner, ctx=ast.Load()), item)
+    # `lambda x: inner(x)` left behind by the rewrite is `inner` itself
+    class _Eta(ast.NodeTransformer):
+        def visit_Lambda(self, node: ast.Lambda) -> ast.AST:  # noqa: N802
+            self.generic_visit(node)
+            body = node.body
+            params = [a.arg for a in node.args.args]
+            if isinstance(body, ast.Call) and isinstance(body.func, ast.Name) and body.func.id == inner and not body.keywords \
+                    and not node.args.vararg and not node.args.kwarg and not node.args.kwonlyargs and not node.args.defaults \
+                    and [a.id if isinstance(a, ast.Name) else None for a in body.args] == params:
+                return ast.copy_location(ast.Name(id=inner, ctx=ast.Load()), node)
+            return node
+    outer.body = [_Eta().visit(stmt) for stmt in outer.body]
     # insert after the docstring
     at = 0
     if outer.body and isinstance(outer.body[0], ast.Expr) and isinstance(outer.body[0].value, ast.Constant) \
